@@ -42,7 +42,7 @@ ASSUMPTIONS = [
 
 def floors(tier):
     return {"def": 450, "nominal-payload": 400, "nominal-kw": 200, "msgid": 300, "cfgkey": 1000,
-            "variant-key": 10, "source-module": 6}
+            "variant-key": 10, "source-module": 6, "one-name-one-field": 200}
 
 
 def plan(tier, seed):
@@ -274,6 +274,71 @@ def check(case) -> core.Out:
             if len(got) != len(set(got)):
                 out.viol.append((key + "duplicate-exposed", "two fields under one attribute name"))
         return out
+    if k == "onename":
+        # one keyword feeds one field: building the nominal instance with a single
+        # extra keyword changes no other attribute of the parsed result
+        mode, clsid, defname = case["mode"], bytes(case["clsid"]), case["defname"]
+        t = C.find_target(mode, clsid, defname)
+        out.classes = ["one-name-one-field"]
+        if t is None or G.audit_fatal(t.defn):
+            out.classes = ["skipped:not-interpretable"]
+            return out
+        nodes = nominal_nodes(t)
+        disc = {k: v for k, v in nominal_kwargs(t, nodes).items() if k not in G.count_names(t.defn)}
+        extras = {k: v for k, v in disc.items() if isinstance(v, int) and G.leaf_lookup(nodes, k) is not None}
+        nodes = nominal_nodes(t, extra=extras)
+        names0 = [n for n, _ in G.expect(nodes, 1)]
+        base_kw = nominal_kwargs(t, nodes)
+        try:
+            m0 = pyubx2.UBXMessage(clsid[0:1], clsid[1:2], mode, **base_kw)
+            a0 = dict(C.public_attrs(pyubx2.UBXReader.parse(m0.serialize(), msgmode=mode)))
+        except Exception:  # noqa - reported by the nominal route
+            out.classes = ["skipped:nominal-not-buildable"]
+            return out
+        skip = set(G.count_names(t.defn)) | set(base_kw) | set(catalog.forced_for(t) or {})
+        tried = 0
+        for name, spec in G.expect(nodes, 1):
+            if name in skip or C.base_name(name) in skip or name.startswith("_") or spec[0] == "sum":
+                continue
+            typ = spec[1]
+            if spec[0] == "scaled":
+                value = spec[3] * 1
+            elif typ == "U" or (typ != "CH" and typ[0] in codec.INT_LETTERS):
+                value = 1
+            elif typ == "CH":
+                continue
+            elif typ[0] == "R":
+                value = 1.0
+            elif typ[0] in "XC":
+                value = b"\x01" + bytes(codec.tsize(typ) - 1)
+            else:
+                value = [1] + [0] * (codec.tsize(typ) - 1)
+            if name in a0 and repr(a0[name]) == repr(value):
+                continue
+            if value == 1 and "_" not in name:
+                # by the reference model this attribute sizes a group (e.g. the ESF-MEAS
+                # calibTtagValid flag): other attributes legitimately appear with it
+                try:
+                    if [n for n, _ in G.expect(nominal_nodes(t, extra=dict(extras, **{name: 1})), 1)] != names0:
+                        continue
+                except Exception:  # noqa
+                    continue
+            try:
+                m1 = pyubx2.UBXMessage(clsid[0:1], clsid[1:2], mode, **dict(base_kw, **{name: value}))
+                a1 = dict(C.public_attrs(pyubx2.UBXReader.parse(m1.serialize(), msgmode=mode)))
+            except Exception:  # noqa - a refusal is not this check's business (C03 / C15)
+                continue
+            tried += 1
+            changed = [n for n in a0 if n != name and (n not in a1 or repr(a1[n]) != repr(a0[n]))]
+            changed += [n for n in a1 if n not in a0 and n != name]
+            if changed:
+                out.viol.append((f"{PROP}|{C.MODES[mode]}|{defname}|one-keyword-feeds-other-field:{C.base_name(name)}",
+                                 f"keyword {name}={value!r} alone also changed {changed[:4]}"))
+                break
+        out.nontrivial = tried > 0
+        out.counts = {"one-name-builds": tried}
+        out.sample = {"mode": C.MODES[mode], "definition": defname, "single-keyword builds": tried}
+        return out
     if k == "msgid":
         mk, name = bytes(case["key"]), case["name"]
         key = f"{PROP}|MSGIDS|{mk.hex()}|"
@@ -353,6 +418,8 @@ def run_shard(spec, ctx, acc):
             core.handle(acc, check(case), case, known)
             if not G.audit_fatal(t.defn) and kw_constructible(t):
                 case = dict(case, route="kw")
+                core.handle(acc, check(case), case, known)
+                case = {"kind": "onename", "mode": t.mode, "clsid": t.clsid, "defname": t.defname}
                 core.handle(acc, check(case), case, known)
             else:
                 acc.skipped["kw-route-not-applicable-by-rule"] += 1
